@@ -512,6 +512,10 @@ impl<'a> Judge<'a> {
         }
         let limit = (16usize << 20).max(256 * file_bytes.len());
         let auto = self.case.auto;
+        if let Ok(p) = std::env::var("VERIF_C20_PROGRESS") {
+            // debugging aid: the load in progress (to find the load that ends the worker)
+            let _ = std::fs::write(&p, format!("{}\nfile hex: {}\n", what, hex(&file_bytes, 4096)));
+        }
         alloc::reset_max();
         let t0 = std::time::Instant::now();
         guard::begin_load(self.code);
@@ -947,68 +951,99 @@ fn t_pick<'a>(t: &mut Tape, xs: &[&'a str]) -> &'a str {
     xs[t.below(xs.len())]
 }
 
-/// Grammar-guided binary stream: header, catalog, data with free counts / lengths / tags / names.
+const SANE_TYPES: &[&str] = &["INTEGER", "VARCHAR(20)", "DOUBLE PRECISION", "BIGINT", "SMALLINT", "REAL", "BOOLEAN", "DATE", "TIME", "TIMESTAMP", "NUMERIC(10, 2)", "CHAR(5)", "VARCHAR"];
+
+/// Grammar-guided binary stream: header, catalog, triggers, data. In the `sane` mode (2 of 3) the
+/// catalog is well-formed (distinct names, valid type names, true counts) with rare hostile fields,
+/// so that the reader gets to the later sections; otherwise every field is free.
 pub fn gen_crafted_bin(t: &mut Tape, allow_deep: bool, allow_endless_rows: bool) -> Vec<Tok> {
-    let mut o = vec![Tok::Header { magic_ok: !t.chance(1, 30), version: *t.pick(&[1u8, 1, 1, 0, 2, 255]) }];
+    let sane = t.chance(2, 3);
+    let cnt = |t: &mut Tape, real: u32| -> u32 {
+        if sane && !t.chance(1, 25) {
+            t.raw();
+            real
+        } else {
+            hostile32(t, real)
+        }
+    };
+    let stok = |t: &mut Tape, s: &str| -> Tok {
+        if sane && !t.chance(1, 25) {
+            t.raw();
+            Tok::Str { s: s.to_string(), len: None }
+        } else {
+            str_tok(t, s)
+        }
+    };
+    let mut o = vec![Tok::Header { magic_ok: sane || !t.chance(1, 30), version: if sane { 1 } else { *t.pick(&[1u8, 1, 1, 0, 2, 255]) } }];
     // schemas, roles
-    for _ in 0..2 {
+    for k in 0..2 {
         let n = t.weighted(&[6, 2, 1]) as u32;
-        o.push(Tok::U32(hostile32(t, n)));
-        for _ in 0..n {
-            o.push(pick_tok(t, &["S", "public", "PUBLIC", "", "S"]));
+        o.push(Tok::U32(cnt(t, n)));
+        for i in 0..n {
+            let nm = if sane { format!("{}{}", if k == 0 { "S" } else { "R" }, i) } else { t_pick(t, &["S", "public", "PUBLIC", "", "S"]).to_string() };
+            o.push(stok(t, &nm));
         }
     }
     // tables
     let nt = t.weighted(&[2, 5, 2, 1]);
-    o.push(Tok::U32(hostile32(t, nt as u32)));
-    let mut tabs: Vec<(String, usize)> = Vec::new();
-    for _ in 0..nt {
-        let name = t_pick(t, NAMES).to_string();
-        o.push(str_tok(t, &name));
+    o.push(Tok::U32(cnt(t, nt as u32)));
+    let mut tabs: Vec<(String, Vec<String>)> = Vec::new();
+    for ti in 0..nt {
+        let name = if sane { format!("T{}", ti + 1) } else { t_pick(t, NAMES).to_string() };
+        o.push(stok(t, &name));
         let mut nc = t.weighted(&[1, 4, 3, 2, 1]);
-        if nc == 0 && !allow_endless_rows && t.chance(9, 10) {
+        if nc == 0 && (!allow_endless_rows || t.chance(1, 2)) {
             nc = 1;
         }
-        o.push(Tok::U32(hostile32(t, nc as u32)));
-        for _ in 0..nc {
-            o.push(pick_tok(t, NAMES));
-            o.push(pick_tok(t, TYPE_NAMES));
-            o.push(Tok::U8(*t.pick(&[1u8, 0, 1, 2, 255])));
+        o.push(Tok::U32(cnt(t, nc as u32)));
+        let mut cols = Vec::new();
+        for ci in 0..nc {
+            let cn = if sane { format!("C{}", ci + 1) } else { t_pick(t, NAMES).to_string() };
+            o.push(stok(t, &cn));
+            let ty = if sane && !t.chance(1, 12) { t_pick(t, SANE_TYPES) } else { t_pick(t, TYPE_NAMES) };
+            o.push(stok(t, ty));
+            o.push(Tok::U8(if sane { t.below(2) as u8 } else { *t.pick(&[1u8, 0, 1, 2, 255]) }));
+            cols.push(cn);
         }
-        tabs.push((name, nc));
+        tabs.push((name, cols));
     }
     // indexes
     let ni = t.weighted(&[5, 3, 1]);
-    o.push(Tok::U32(hostile32(t, ni as u32)));
-    for _ in 0..ni {
-        o.push(pick_tok(t, &["IX", "IX", "", "ix2"]));
-        let tn = if !tabs.is_empty() && t.chance(3, 4) { tabs[t.below(tabs.len())].0.clone() } else { "NOPE".to_string() };
-        o.push(str_tok(t, &tn));
-        o.push(Tok::U8(*t.pick(&[0u8, 1, 2])));
-        let nc = t.weighted(&[1, 5, 2]);
-        o.push(Tok::U32(hostile32(t, nc as u32)));
+    o.push(Tok::U32(cnt(t, ni as u32)));
+    for ii in 0..ni {
+        let iname = if sane { format!("IX{}", ii + 1) } else { t_pick(t, &["IX", "IX", "", "ix2"]).to_string() };
+        o.push(stok(t, &iname));
+        let known = !tabs.is_empty() && (sane || t.chance(3, 4));
+        let (tn, tcols) = if known { tabs[t.below(tabs.len())].clone() } else { ("NOPE".to_string(), vec![]) };
+        o.push(stok(t, &tn));
+        o.push(Tok::U8(if sane { t.below(2) as u8 } else { *t.pick(&[0u8, 1, 2]) }));
+        let nc = if sane { 1 } else { t.weighted(&[1, 5, 2]) };
+        o.push(Tok::U32(cnt(t, nc as u32)));
         for _ in 0..nc {
-            o.push(pick_tok(t, NAMES));
-            o.push(Tok::U8(*t.pick(&[0u8, 1, 2, 255])));
+            let cn = if sane && !tcols.is_empty() { tcols[t.below(tcols.len())].clone() } else { t_pick(t, NAMES).to_string() };
+            o.push(stok(t, &cn));
+            o.push(Tok::U8(if sane { t.below(2) as u8 } else { *t.pick(&[0u8, 1, 2, 255]) }));
         }
     }
     // triggers
-    let ntr = t.weighted(&[7, 2, 1]);
-    o.push(Tok::U32(hostile32(t, ntr as u32)));
-    for _ in 0..ntr {
-        o.push(pick_tok(t, &["TR", "TR", ""]));
-        o.push(pick_tok(t, NAMES));
-        o.push(Tok::U8(*t.pick(&[0u8, 1, 2, 3])));
-        let ev = *t.pick(&[0u8, 1, 2, 3, 4]);
+    let ntr = t.weighted(&[5, 3, 1]);
+    o.push(Tok::U32(cnt(t, ntr as u32)));
+    for k in 0..ntr {
+        let trn = if sane { format!("TR{}", k + 1) } else { t_pick(t, &["TR", "TR", ""]).to_string() };
+        o.push(stok(t, &trn));
+        let tn = if sane && !tabs.is_empty() { tabs[t.below(tabs.len())].0.clone() } else { t_pick(t, NAMES).to_string() };
+        o.push(stok(t, &tn));
+        o.push(Tok::U8(if sane { t.below(3) as u8 } else { *t.pick(&[0u8, 1, 2, 3]) }));
+        let ev = if sane { t.below(4) as u8 } else { *t.pick(&[0u8, 1, 2, 3, 4]) };
         o.push(Tok::U8(ev));
         if ev == 3 {
             let n = t.below(3) as u32;
-            o.push(Tok::U32(hostile32(t, n)));
+            o.push(Tok::U32(cnt(t, n)));
             for _ in 0..n {
-                o.push(str_tok(t, "C1"));
+                o.push(stok(t, "C1"));
             }
         }
-        o.push(Tok::U8(*t.pick(&[0u8, 1, 2])));
+        o.push(Tok::U8(if sane { t.below(2) as u8 } else { *t.pick(&[0u8, 1, 2]) }));
         let has_when = t.chance(1, 2);
         o.push(Tok::U8(has_when as u8));
         if has_when {
@@ -1020,13 +1055,14 @@ pub fn gen_crafted_bin(t: &mut Tape, allow_deep: bool, allow_endless_rows: bool)
                 }
                 1 => {
                     // IS NULL over a column reference, a few levels
-                    for _ in 0..t.range(1, 6) {
+                    let depth = t.range(1, 6);
+                    for _ in 0..depth {
                         o.push(Tok::U8(0x06));
                     }
                     o.push(Tok::U8(0x01));
                     o.push(Tok::U8(0));
-                    o.push(str_tok(t, "C1"));
-                    for _ in 0..6 {
+                    o.push(stok(t, "C1"));
+                    for _ in 0..depth {
                         o.push(Tok::U8(0));
                     }
                 }
@@ -1037,20 +1073,24 @@ pub fn gen_crafted_bin(t: &mut Tape, allow_deep: bool, allow_endless_rows: bool)
                 }
                 _ => {
                     // deeply nested IS NULL (tag 0x06): one stack frame of read_expression per byte
-                    o.push(Tok::Fill { byte: 0x06, n: *t.pick(&[60_000u32, 20_000, 5_000, 1_000]) });
+                    let n = *t.pick(&[60_000u32, 20_000, 5_000, 1_000]);
+                    o.push(Tok::Fill { byte: 0x06, n });
                     o.push(Tok::U8(0x07));
+                    o.push(Tok::Fill { byte: 0x00, n });
                 }
             }
         }
-        o.push(Tok::U8(*t.pick(&[0u8, 0, 1])));
-        o.push(pick_tok(t, &["BEGIN END", "", "x"]));
+        o.push(Tok::U8(if sane { 0 } else { *t.pick(&[0u8, 0, 1]) }));
+        let body = t_pick_static(t, &["BEGIN END", "", "x"]);
+        o.push(stok(t, body));
     }
     // data
-    for (name, nc) in &tabs {
-        let dn = if t.chance(9, 10) { name.clone() } else { "NOPE".to_string() };
-        o.push(str_tok(t, &dn));
+    for (name, cols) in &tabs {
+        let nc = cols.len();
+        let dn = if sane || t.chance(9, 10) { name.clone() } else { "NOPE".to_string() };
+        o.push(stok(t, &dn));
         let rows = t.weighted(&[2, 4, 2, 1]) as u64;
-        let written = match t.weighted(&[10, 1, 1, 1, 1]) {
+        let written = match t.weighted(&[if sane { 40 } else { 10 }, 1, 1, 1, 1]) {
             0 => rows,
             1 => rows + 1,
             2 => u64::MAX,
@@ -1058,10 +1098,10 @@ pub fn gen_crafted_bin(t: &mut Tape, allow_deep: bool, allow_endless_rows: bool)
             _ => 0,
         };
         // a table without columns never reaches the end of the input: rows cost no bytes
-        let written = if *nc == 0 && !allow_endless_rows { written.min(1000) } else { written };
+        let written = if nc == 0 && !allow_endless_rows { written.min(1000) } else { written };
         o.push(Tok::U64(written));
         for _ in 0..rows {
-            for _ in 0..*nc {
+            for _ in 0..nc {
                 value_toks(t, &mut o);
             }
         }
@@ -1070,6 +1110,10 @@ pub fn gen_crafted_bin(t: &mut Tape, allow_deep: bool, allow_endless_rows: bool)
         o.push(Tok::Raw(vec![0, 1, 2, 3]));
     }
     o
+}
+
+fn t_pick_static(t: &mut Tape, xs: &[&'static str]) -> &'static str {
+    xs[t.below(xs.len())]
 }
 
 /// Crafted JSON document in the shape `load_json` expects, with hostile members.
@@ -1233,7 +1277,7 @@ impl Check for C20 {
              all 8 bit flips at every offset of a window, the five 32-bit splats {{0,1,0x7fffffff,0x80000000,0xffffffff}} at every offset of a window, flips+splats at every count / length prefix / row count / tag / flag located by a \
              walker of the binary format, stacks of 1-3 mutations (flip, splat, set byte, truncate, duplicate / remove / insert a block). Compressed files are damaged outside (compressed bytes) or inside (binary stream damaged, then compressed). \
              Loaders: load_binary / load_compressed / load_json / vibesql_executor::load_sql_dump, or Database::load on an extension-less file (detection by content). Oracle per load: Ok or Err; a panic, an abort / stack overflow, \
-             a load running > 25 s, a live heap > 6 GiB or a single allocation request > max(16 MiB, 256 x file length) is a failure. sub_evaluations = number of loads. Fixed cases: one small database per format with exhaustive \
+             a load running > 15 s, a live heap > 6 GiB or a single allocation request > max(16 MiB, 256 x file length) is a failure. sub_evaluations = number of loads. Fixed cases: one small database per format with exhaustive \
              truncation and the located-field plan. Non-trivial = at least one loaded content differs from the valid file and still passes the magic / first-byte check of its format. Distinct = hash of the case.",
             MAX_LOADS_PER_CASE
         )
@@ -1241,7 +1285,7 @@ impl Check for C20 {
     fn assumptions(&self) -> Vec<String> {
         vec![
             "each case runs in a child process (`chk_persist --worker C20`) whose global allocator counts the largest single request of each load; allocations made by zstd's C code while decompressing a damaged compressed file go through malloc and are invisible to it (the decompressed Vec and everything the reader allocates afterwards are counted)".into(),
-            "child deaths are reported by vcore as abort[status<wait status>]; the child turns SIGABRT into exit code 100+c, a load > 25 s into 140+c, a live heap > 6 GiB into 180+c with c = 4*format(binary 0, compressed 1, json 2, sql 3) + source(valid-damaged 0, crafted binary 1, text/bytes 2); wait status = exit code * 256".into(),
+            "child deaths are reported by vcore as abort[status<wait status>]; the child turns SIGABRT into exit code 100+c, a load > 15 s into 140+c, a live heap > 6 GiB into 180+c with c = 4*format(binary 0, compressed 1, json 2, sql 3) + source(valid-damaged 0, crafted binary 1, text/bytes 2); wait status = exit code * 256".into(),
             "the thorough tier does not run the libFuzzer target `db_load` of the design note (no fuzzing toolchain in this harness); the grammar-guided and arbitrary sources take its place".into(),
             "temp files: one directory per case under /verif/target/tmp/c20 (override VERIF_PERSIST_TMP), one file rewritten per load, removed when the case ends".into(),
         ]
